@@ -399,3 +399,40 @@ def rewrite_try(src, ed, lo, hi, log):
             ed.insert(sig[a].start, '(match ', 'R14')
             ed.replace(t.start, t.end, ' { Ok(vx_v) => vx_v, Err(vx_e) => return Err(core::convert::From::from(vx_e)) })', 'R14')
             log.append(f'R14 {src.rel}:{src.line_of(t.start)} `?` desugared')
+
+
+def rewrite_format(src, ed, lo, hi, log):
+    """R11: `format!(LIT, arg)` / `format!("..{name}..")` with exactly one placeholder -> vx_fmt1(PRE, &(ARG), POST)."""
+    import re as _re
+    sig = src.sig
+    for i in range(lo, hi - 2):
+        if not (sig[i].kind == 'id' and sig[i].text == 'format' and sig[i + 1].text == '!' and sig[i + 2].text == '('):
+            continue
+        o = i + 2
+        c = sig[o].mate
+        lit = sig[o + 1]
+        if lit.kind != 'str':
+            raise LiftError(f'{src.rel}:{src.line_of(sig[i].start)}: format! without a literal (R11 subset)')
+        m = _re.fullmatch(r'(r(#*)")(.*)("#*)', lit.text, _re.S) if lit.text.startswith('r') else _re.fullmatch(r'(")()(.*)(")', lit.text, _re.S)
+        if not m:
+            raise LiftError(f'{src.rel}:{src.line_of(lit.start)}: unsupported format literal')
+        openq, body, closeq = m.group(1), m.group(3), m.group(4)
+        if '{{' in body or '}}' in body:
+            raise LiftError(f'{src.rel}:{src.line_of(lit.start)}: escaped braces in format! (R11 subset)')
+        ph = list(_re.finditer(r'\{([A-Za-z_][A-Za-z0-9_]*)?\}', body))
+        if len(ph) != 1 or body.count('{') != 1:
+            raise LiftError(f'{src.rel}:{src.line_of(lit.start)}: format! with {len(ph)} placeholders or format specs (R11 subset is exactly one plain placeholder)')
+        pre, post = body[:ph[0].start()], body[ph[0].end():]
+        if ph[0].group(1):
+            arg = ph[0].group(1)
+            if sig[o + 2].text != ')':
+                raise LiftError(f'{src.rel}:{src.line_of(lit.start)}: named placeholder with extra arguments')
+        else:
+            if sig[o + 2].text != ',':
+                raise LiftError(f'{src.rel}:{src.line_of(lit.start)}: positional placeholder without argument')
+            a0, a1 = o + 3, c
+            if sig[a1 - 1].text == ',':
+                a1 -= 1
+            arg = src.text[sig[a0].start:sig[a1 - 1].end]
+        ed.replace(sig[i].start, sig[c].end, f'vx_fmt1({openq}{pre}{closeq}, &({arg}), {openq}{post}{closeq})', 'R11')
+        log.append(f'R11 {src.rel}:{src.line_of(sig[i].start)} format! with one placeholder routed through vx_fmt1')
